@@ -16,11 +16,12 @@ import (
 // ---------------- values ----------------
 
 type Step struct {
-	IsIndex bool
-	Field   int
-	St      *types.Struct
-	Index   *T
-	Elem    types.Type // type of the selected component
+	IsSliceElem bool // element of a slice value stored at the parent location
+	IsIndex     bool
+	Field       int
+	St          *types.Struct
+	Index       *T
+	Elem        types.Type // type of the selected component
 }
 
 // Loc is a symbolic pointer.
@@ -48,6 +49,8 @@ type Val struct {
 	BackLen  *T
 	BackOff  *T
 	BackElem types.Type
+	// where this (slice) value was loaded from: element stores update the stored slice value
+	Origin *Loc
 }
 
 func (v Val) IsZero() bool {
@@ -707,6 +710,32 @@ func (ex *Ex) assumeFresh(st *State, r *T) {
 		st.Assume(Not(Eq(r, f)))
 	}
 	st.Assume(Not(App("alloc0", SBool, r)))
+	// a freshly allocated object is distinct from every reference the function already holds:
+	// reference-valued registers and the elements of local arrays of references (loop-carried
+	// slices filled in earlier iterations)
+	seen := map[string]bool{r.String(): true}
+	for _, v := range st.regs {
+		if v.T != nil && v.T.S.Eq(SRef) && v.T.Kind != kApp {
+			k := v.T.String()
+			if !seen[k] {
+				seen[k] = true
+				st.Assume(Not(Eq(r, v.T)))
+			}
+		}
+	}
+	for id, c := range st.cells {
+		if id <= 0 || c == nil {
+			continue
+		}
+		if c.S.Name == "Array" && c.S.Args[0].Eq(SInt) && c.S.Args[1].Eq(SRef) {
+			k := c.String()
+			if !seen[k] {
+				seen[k] = true
+				j := Var("j!f", SInt)
+				st.Assume(Forall([]*T{j}, Not(Eq(Select(c, j), r))))
+			}
+		}
+	}
 	st.fresh = append(st.fresh, r)
 }
 
@@ -875,7 +904,9 @@ func (ex *Ex) asLoc(fr *Frame, st *State, v Val, pt types.Type, ins ssa.Instruct
 func (ex *Ex) navGet(v *T, path []Step) *T {
 	w := ex.W
 	for _, s := range path {
-		if s.IsIndex {
+		if s.IsSliceElem {
+			v = Select(w.SliceArr(v, w.SortOf(s.Elem)), s.Index)
+		} else if s.IsIndex {
 			v = Select(v, s.Index)
 		} else {
 			v = w.StructGet(v, s.St, s.Field)
@@ -890,6 +921,12 @@ func (ex *Ex) navSet(v *T, path []Step, nv *T) *T {
 		return nv
 	}
 	s := path[0]
+	if s.IsSliceElem {
+		es := w.SortOf(s.Elem)
+		arr := w.SliceArr(v, es)
+		inner := ex.navSet(Select(arr, s.Index), path[1:], nv)
+		return w.MkSlice(es, Store(arr, s.Index, inner), w.SliceLen(v), w.SliceIsNil(v))
+	}
 	if s.IsIndex {
 		inner := ex.navSet(Select(v, s.Index), path[1:], nv)
 		return Store(v, s.Index, inner)
@@ -912,6 +949,9 @@ func (ex *Ex) ifaceTypeFact(v *T, t types.Type) *T {
 
 func (ex *Ex) loadFrom(fr *Frame, st *State, addr Val, t types.Type, ins ssa.Instruction) Val {
 	r := ex.loadFrom0(fr, st, addr, t, ins)
+	if t != nil && isSliceT(t) && addr.Ptr != nil && addr.Ptr.Snap == nil && (addr.Ptr.Cell > 0 || addr.Ptr.Global != nil) {
+		r.Origin = addr.Ptr
+	}
 	if r.T != nil && t != nil {
 		if f := ex.ifaceTypeFact(r.T, t); f != nil {
 			st.Assume(f)
@@ -1293,8 +1333,75 @@ func (ex *Ex) implementsTerm(d *T, it *types.Interface) *T {
 }
 
 func hasMethodSym(name string, sig *types.Signature) string {
-	s := types.TypeString(sig, func(p *types.Package) string { return p.Path() })
-	return "hasM$" + name + "$" + mangle(strings.TrimPrefix(s, "func"))
+	// parameter names are not part of a method's identity: use the types only
+	q := func(p *types.Package) string { return p.Path() }
+	var ps, rs []string
+	for j := 0; j < sig.Params().Len(); j++ {
+		t := types.TypeString(deepUnalias(sig.Params().At(j).Type()), q)
+		if sig.Variadic() && j == sig.Params().Len()-1 {
+			t = "..." + strings.TrimPrefix(t, "[]")
+		}
+		ps = append(ps, t)
+	}
+	for j := 0; j < sig.Results().Len(); j++ {
+		rs = append(rs, types.TypeString(deepUnalias(sig.Results().At(j).Type()), q))
+	}
+	return canonMethodSym(name, ps, rs)
+}
+
+func canonMethodSym(name string, ps, rs []string) string {
+	for i := range ps {
+		ps[i] = strings.ReplaceAll(ps[i], "any", "interface{}")
+	}
+	for i := range rs {
+		rs[i] = strings.ReplaceAll(rs[i], "any", "interface{}")
+	}
+	return "hasM$" + name + "$" + mangle("("+strings.Join(ps, ",")+")("+strings.Join(rs, ",")+")")
+}
+
+// methodSymFromSpec parses "Name(T1, T2) R" / "Name() (R1, R2)" as written in contracts.
+func methodSymFromSpec(s string) (string, bool) {
+	k := strings.Index(s, "(")
+	if k < 0 {
+		return "", false
+	}
+	name := strings.TrimSpace(s[:k])
+	depth := 0
+	end := -1
+	for i := k; i < len(s); i++ {
+		if s[i] == '(' {
+			depth++
+		} else if s[i] == ')' {
+			depth--
+			if depth == 0 {
+				end = i
+				break
+			}
+		}
+	}
+	if end < 0 {
+		return "", false
+	}
+	split := func(x string) []string {
+		x = strings.TrimSpace(x)
+		if x == "" {
+			return nil
+		}
+		var out []string
+		for _, p := range strings.Split(x, ",") {
+			out = append(out, strings.TrimSpace(p))
+		}
+		return out
+	}
+	ps := split(s[k+1 : end])
+	rest := strings.TrimSpace(s[end+1:])
+	var rs []string
+	if strings.HasPrefix(rest, "(") && strings.HasSuffix(rest, ")") {
+		rs = split(rest[1 : len(rest)-1])
+	} else {
+		rs = split(rest)
+	}
+	return canonMethodSym(name, ps, rs), true
 }
 
 func (ex *Ex) indexAddr(fr *Frame, st *State, x *ssa.IndexAddr) {
@@ -1317,6 +1424,13 @@ func (ex *Ex) indexAddr(fr *Frame, st *State, x *ssa.IndexAddr) {
 		}
 		sv := ex.termOf(fr, st, base, x.X.Type())
 		ex.panicCheck(fr, st, "index", x, "slice index out of range", And(Ge(idx, IntLit(0)), Lt(idx, w.SliceLen(sv))))
+		if base.Origin != nil {
+			// element of the slice value stored in a local variable: stores update that variable
+			nl := *base.Origin
+			nl.Path = append(append([]Step(nil), base.Origin.Path...), Step{IsSliceElem: true, Index: idx, Elem: bt.Elem()})
+			st.regs[x] = Val{Ptr: &nl}
+			return
+		}
 		// read-only element pointer into a slice value
 		st.regs[x] = Val{Ptr: &Loc{Snap: Select(w.SliceArr(sv, w.SortOf(bt.Elem())), idx), Pointee: bt.Elem()}}
 	default:
